@@ -24,6 +24,24 @@ type LoadResult struct {
 
 // Load loads the patterns in dir with the given build tags and builds SSA.
 func Load(dir string, tags []string, patterns ...string) (*LoadResult, error) {
+	lr, bad, err := LoadLenient(dir, tags, patterns...)
+	if err != nil {
+		return nil, err
+	}
+	if len(bad) > 0 {
+		var errs []string
+		for _, es := range bad {
+			errs = append(errs, es...)
+		}
+		sort.Strings(errs)
+		return nil, fmt.Errorf("package errors:\n%s", strings.Join(errs, "\n"))
+	}
+	return lr, nil
+}
+
+// LoadLenient loads like Load but tolerates packages with errors: they (and
+// their dependents) are left out of the SSA program and returned in bad.
+func LoadLenient(dir string, tags []string, patterns ...string) (*LoadResult, map[string][]string, error) {
 	cfg := &packages.Config{
 		Mode: packages.NeedName | packages.NeedFiles | packages.NeedCompiledGoFiles | packages.NeedImports | packages.NeedDeps |
 			packages.NeedTypes | packages.NeedTypesSizes | packages.NeedSyntax | packages.NeedTypesInfo | packages.NeedModule,
@@ -33,16 +51,30 @@ func Load(dir string, tags []string, patterns ...string) (*LoadResult, error) {
 	}
 	pkgs, err := packages.Load(cfg, patterns...)
 	if err != nil {
-		return nil, err
+		return nil, nil, err
 	}
-	var errs []string
+	bad := map[string][]string{}
+	isBad := map[*packages.Package]bool{}
 	packages.Visit(pkgs, nil, func(p *packages.Package) {
 		for _, e := range p.Errors {
-			errs = append(errs, e.Error())
+			bad[p.PkgPath] = append(bad[p.PkgPath], e.Error())
+			isBad[p] = true
+		}
+		for _, imp := range p.Imports {
+			if isBad[imp] && !isBad[p] {
+				isBad[p] = true
+				bad[p.PkgPath] = append(bad[p.PkgPath], "imports a package with errors: "+imp.PkgPath)
+			}
 		}
 	})
-	if len(errs) > 0 {
-		return nil, fmt.Errorf("package errors:\n%s", strings.Join(errs, "\n"))
+	if len(bad) > 0 {
+		var good []*packages.Package
+		for _, p := range pkgs {
+			if !isBad[p] {
+				good = append(good, p)
+			}
+		}
+		pkgs = good
 	}
 	prog, spkgs := ssautil.AllPackages(pkgs, ssa.GlobalDebug|ssa.InstantiateGenerics)
 	prog.Build()
@@ -60,7 +92,7 @@ func Load(dir string, tags []string, patterns ...string) (*LoadResult, error) {
 		}
 		lr.Funcs[pkg.Pkg.Path()+"::"+fn.RelString(pkg.Pkg)] = fn
 	}
-	return lr, nil
+	return lr, bad, nil
 }
 
 // PassResult is the JSON output of a pass.
